@@ -151,6 +151,16 @@ fn mro_history(ctx: &mut Ctx, ops: &[Op], key_seed: u64) -> Result<(), (usize, F
         sut.check(&format!("after op #{i}")).map_err(e)?;
         if !sut.model.writable {
             check_append_refused(ctx, &mut sut).map_err(e)?;
+            // once read-only, no later operation (clears flush the header again) may bring key
+            // material back to any store
+            let files = snapshot(&world);
+            if let Some((si, p)) = contains_secret(&files, &secret) {
+                return Err(e(fail(
+                    format!("secret-back-on-disk-after:{}:{}", op.kind(), crate::world::STORE_NAMES[si]),
+                    format!("store {} contains key material at byte {p} after op #{i} {:?} on a core that was made read-only earlier", crate::world::STORE_NAMES[si], op),
+                )));
+            }
+            ctx.count("scans_after_later_ops");
         }
         if matches!(op, Op::Reopen) {
             // (iv) public key and writability recovered
@@ -270,7 +280,14 @@ fn run_case(ctx: &mut Ctx, id: u64) {
         gen::for_each_sequence(&prefix, 3, &alphabet, |s| seqs.push(s.to_vec()));
         for s in seqs {
             if let Some(mut ops) = gen::concretize(&s) {
+                let len: u64 = ops.iter().map(|o| match o { Op::Append(..) => 1, Op::Batch(b) => b.len() as u64, _ => 0 }).sum();
                 ops.push(Op::MakeReadOnly);
+                // the same instance keeps working (clears reach the periodic flush) before it is closed
+                if len > 0 {
+                    for k in 0..5 {
+                        ops.push(Op::Clear(k % len, k % len + 1));
+                    }
+                }
                 ops.push(Op::Reopen);
                 ops.push(Op::Get(0));
                 ctx.count("exhaustive_histories");
